@@ -7,8 +7,22 @@ namespace Sched
 
 open Loop
 
+-- `simp` normal form of `s.cancelledCtx x` is `ctxDone s.doneCtx x` (transparent to updates of
+-- the other fields); `State.cancelledCtx` is reducible, so hypotheses stated with it still
+-- rewrite the normal form.
+attribute [simp] State.cancelledCtx
+
+@[simp] theorem ctxDone_nil (x : Nat) : ctxDone [] x = false := rfl
+@[simp] theorem ctxDone_cons (y : Nat) (d : List Nat) (x : Nat) :
+    ctxDone (y :: d) x = (decide (x = y) || ctxDone d x) := by
+  simp [ctxDone]
+theorem ctxDone_cons_self (y : Nat) (d : List Nat) : ctxDone (y :: d) y = true := by simp
+theorem ctxDone_eq_mem (d : List Nat) (x : Nat) : ctxDone d x = decide (x ∈ d) := by simp [ctxDone]
+
 @[simp] theorem addLog_log (s : State) (e : Ev) : (addLog s e).log = s.log ++ [e] := rfl
-@[simp] theorem addLog_cancelled (s : State) (e : Ev) : (addLog s e).cancelled = s.cancelled := rfl
+@[simp] theorem addLog_doneCtx (s : State) (e : Ev) : (addLog s e).doneCtx = s.doneCtx := rfl
+theorem addLog_cancelledCtx (s : State) (e : Ev) (x : Nat) :
+    (addLog s e).cancelledCtx x = s.cancelledCtx x := rfl
 @[simp] theorem addLog_ws (s : State) (e : Ev) : (addLog s e).ws = s.ws := rfl
 @[simp] theorem addLog_loop (s : State) (e : Ev) : (addLog s e).loop = s.loop := rfl
 @[simp] theorem addLog_donec (s : State) (e : Ev) : (addLog s e).donec = s.donec := rfl
@@ -16,12 +30,51 @@ open Loop
 @[simp] theorem addLog_caller (s : State) (e : Ev) : (addLog s e).caller = s.caller := rfl
 
 @[simp] theorem setW_log (s : State) (w : Nat) (x : W) : (setW s w x).log = s.log := rfl
-@[simp] theorem setW_cancelled (s : State) (w : Nat) (x : W) : (setW s w x).cancelled = s.cancelled := rfl
+@[simp] theorem setW_doneCtx (s : State) (w : Nat) (x : W) : (setW s w x).doneCtx = s.doneCtx := rfl
+theorem setW_cancelledCtx (s : State) (w : Nat) (x : W) (y : Nat) :
+    (setW s w x).cancelledCtx y = s.cancelledCtx y := rfl
 @[simp] theorem setW_ws (s : State) (w : Nat) (x : W) : (setW s w x).ws = s.ws.set w x := rfl
 @[simp] theorem setW_loop (s : State) (w : Nat) (x : W) : (setW s w x).loop = s.loop := rfl
 @[simp] theorem setW_donec (s : State) (w : Nat) (x : W) : (setW s w x).donec = s.donec := rfl
 @[simp] theorem setW_enq (s : State) (w : Nat) (x : W) : (setW s w x).enq = s.enq := rfl
 @[simp] theorem setW_caller (s : State) (w : Nat) (x : W) : (setW s w x).caller = s.caller := rfl
+
+@[simp] theorem cancelCtx_log (s : State) (x : Nat) : (s.cancelCtx x).log = s.log := rfl
+@[simp] theorem cancelCtx_doneCtx (s : State) (x : Nat) : (s.cancelCtx x).doneCtx = x :: s.doneCtx := rfl
+@[simp] theorem cancelCtx_ws (s : State) (x : Nat) : (s.cancelCtx x).ws = s.ws := rfl
+@[simp] theorem cancelCtx_loop (s : State) (x : Nat) : (s.cancelCtx x).loop = s.loop := rfl
+@[simp] theorem cancelCtx_donec (s : State) (x : Nat) : (s.cancelCtx x).donec = s.donec := rfl
+@[simp] theorem cancelCtx_enq (s : State) (x : Nat) : (s.cancelCtx x).enq = s.enq := rfl
+@[simp] theorem cancelCtx_caller (s : State) (x : Nat) : (s.cancelCtx x).caller = s.caller := rfl
+
+/-- Cancelling `x` makes `x` done and leaves every other context as it was. -/
+theorem cancelCtx_cancelledCtx (s : State) (x y : Nat) :
+    (s.cancelCtx x).cancelledCtx y = (decide (y = x) || s.cancelledCtx y) := by
+  simp
+
+theorem cancelCtx_cancelledCtx_self (s : State) (x : Nat) :
+    (s.cancelCtx x).cancelledCtx x = true := by simp
+
+/-- Cancellation is monotone. -/
+theorem cancelCtx_cancelledCtx_mono (s : State) (x y : Nat) (h : s.cancelledCtx y = true) :
+    (s.cancelCtx x).cancelledCtx y = true := by
+  simp [h]
+
+theorem cancelCtx_cancelledCtx_ne (s : State) {x y : Nat} (h : y ≠ x) :
+    (s.cancelCtx x).cancelledCtx y = s.cancelledCtx y := by simp [h]
+
+theorem init_cancelledCtx (c : Cfg) (x : Nat) : (init c).cancelledCtx x = false := rfl
+@[simp] theorem init_doneCtx (c : Cfg) : (init c).doneCtx = [] := rfl
+
+/-- Every job's context is one of the contexts the configuration mentions. -/
+theorem Cfg.ctxOfJob_mem_ctxs (c : Cfg) (j : Nat) : c.ctxOfJob j ∈ c.ctxs := by
+  unfold Cfg.ctxOfJob Cfg.ctxs
+  rw [List.getD_eq_getElem?_getD]
+  cases h : c.ctxOf[j]? with
+  | none => simp
+  | some x => simp [List.mem_of_getElem? h]
+
+theorem Cfg.waitCtx_mem_ctxs (c : Cfg) : c.waitCtx ∈ c.ctxs := by simp [Cfg.ctxs]
 
 namespace Loop
 
